@@ -108,6 +108,8 @@ def child_main(path):
 def run_ops(klepto, archmon, a, b, root, ops):
     rec = []
     mono = time.monotonic_ns
+    if a is None and any(op[0] not in ('open', 'idle') for op in ops):
+        a = gen.build_archive(klepto, b, root, public=False)     # (not pre-opened: the constructor is part of the race)
     for op in ops:
         o = op[0]
         r = {'op': o, 'key': op[1] if len(op) > 1 and o in ('set', 'set2', 'get', 'in') else None}
@@ -506,6 +508,9 @@ def gen_case(rng, prop='C14', free=False):
     if wl == 'writer-opener' and kind == 'file' and rng.random() < 0.5:
         s0 = []          # an existing but still empty archive
         cleared = rng.random() < 0.6
+        if cleared:
+            for j in jobs:
+                j['preopen'] = False      # every process opens the (emptied) archive inside the schedule
         for j in jobs[:1]:
             j['ops'] = [op if op[1] != 'k' else ['set', 'k', op[2]] for op in j['ops']]
     if free and kind == 'sql' and rng.random() < 0.12:
@@ -790,7 +795,8 @@ def run_shard(prop, tier, seed, shard, nshards, opts):
         cleared = bool(j % 2)
         case = {'backend': b, 'workload': 'writer-opener', 'pair': 'writer-vs-cached-opener',
                 's0': [] if cleared else [['base', 'b0'], ['k', 'k0']], 'cleared': cleared,
-                'jobs': [{'ops': [['set', 'n1', 'n-1']]}, {'ops': [['open', 1]]}], 'policy': 'dfs', 'free': False, 'seed': 0}
+                'jobs': [{'ops': [['set', 'n1', 'n-1']], 'preopen': False}, {'ops': [['open', 1]], 'preopen': False}],
+                'policy': 'dfs', 'free': False, 'seed': 0}
         viol, cnt, exhausted = explore_bounded(case, bound=2, max_runs=120, budget_s=40)
         res['cases'] += cnt.get('c14_dfs_schedules', 0)
         for k, v in cnt.items():
